@@ -35,10 +35,12 @@ type xkey struct {
 	isMaster bool
 }
 
+//go:norace
 func bip39Seed(mnemonic, passphrase string) []byte {
 	return pbkdf2.Key([]byte(mnemonic), []byte("mnemonic"+passphrase), 2048, 64, sha512.New)
 }
 
+//go:norace
 func masterKey(seed []byte) (*xkey, error) {
 	mac := hmac.New(sha512.New, []byte("Bitcoin seed"))
 	mac.Write(seed)
@@ -51,6 +53,7 @@ func masterKey(seed []byte) (*xkey, error) {
 	return &xkey{priv: k, pubX: x, pubY: y, chain: I[32:]}, nil
 }
 
+//go:norace
 func compress(x, y *big.Int) []byte {
 	out := make([]byte, 33)
 	out[0] = 2 + byte(y.Bit(0))
@@ -59,6 +62,7 @@ func compress(x, y *big.Int) []byte {
 	return out
 }
 
+//go:norace
 func (k *xkey) child(i uint32) (*xkey, error) {
 	var data []byte
 	if i >= hardened {
@@ -116,10 +120,12 @@ func (k *xkey) child(i uint32) (*xkey, error) {
 	return c, nil
 }
 
+//go:norace
 func (k *xkey) neuter() *xkey {
 	return &xkey{pubX: k.pubX, pubY: k.pubY, chain: k.chain, unpadded: k.unpadded}
 }
 
+//go:norace
 func hash160(b []byte) []byte {
 	h := sha256.Sum256(b)
 	r := ripemd160.New()
@@ -131,6 +137,7 @@ func hash160(b []byte) []byte {
 
 const bech32Charset = "qpzry9x8gf2tvdw0s3jn54khce6mua7l"
 
+//go:norace
 func bech32Polymod(values []byte) uint32 {
 	gen := []uint32{0x3b6a57b2, 0x26508e6d, 0x1ea119fa, 0x3d4233dd, 0x2a1462b3}
 	chk := uint32(1)
@@ -146,6 +153,7 @@ func bech32Polymod(values []byte) uint32 {
 	return chk
 }
 
+//go:norace
 func bech32Encode(hrp string, data []byte) string {
 	var exp []byte
 	for _, c := range hrp {
@@ -168,6 +176,7 @@ func bech32Encode(hrp string, data []byte) string {
 	return out
 }
 
+//go:norace
 func convertBits8to5(in []byte) []byte {
 	var out []byte
 	acc, bits := uint32(0), uint(0)
@@ -211,6 +220,8 @@ type HDAddr struct {
 // NewHDWallet derives account m/44'/coin'/1' from mnemonic+passphrase. When
 // wantID is non-empty and the BIP-32 derivation yields another id, the
 // btcd-compatible variant is tried (NonStandard is set when it was needed).
+//
+//go:norace
 func NewHDWallet(mnemonic, passphrase string, coin uint32, wantID string) (*HDWallet, error) {
 	w, err := newHDWallet(mnemonic, passphrase, coin, false)
 	if err != nil {
@@ -226,6 +237,7 @@ func NewHDWallet(mnemonic, passphrase string, coin uint32, wantID string) (*HDWa
 	return w, nil
 }
 
+//go:norace
 func newHDWallet(mnemonic, passphrase string, coin uint32, unpadded bool) (*HDWallet, error) {
 	seed := bip39Seed(mnemonic, passphrase)
 	m, err := masterKey(seed)
@@ -260,6 +272,7 @@ func newHDWallet(mnemonic, passphrase string, coin uint32, unpadded bool) (*HDWa
 	return w, nil
 }
 
+//go:norace
 func pad32(k *big.Int) []byte {
 	out := make([]byte, 32)
 	b := k.Bytes()
@@ -269,8 +282,11 @@ func pad32(k *big.Int) []byte {
 
 // Addr returns the external address at index i (nil if the index is invalid,
 // which has probability ~2^-127 and is skipped by the wallet as well).
+//
+//go:norace
 func (w *HDWallet) Addr(i uint32) *HDAddr { return w.addr(i, false) }
 
+//go:norace
 func (w *HDWallet) addr(i uint32, internal bool) *HDAddr {
 	c, br := w.cache, w.ext
 	if internal {
